@@ -28,6 +28,29 @@ var rsaPoolPEM []byte
 //go:embed testdata/rsa_collide.pem
 var rsaCollidePEM []byte
 
+//go:embed testdata/rsa_odd.pem
+var rsaOddPEM []byte
+
+// RSAOddKeys returns keys of 1024, 3072 and 4096 bits: sizes the token format (256-byte authenticator) cannot carry.
+func RSAOddKeys() []*rsa.PrivateKey {
+	var out []*rsa.PrivateKey
+	rest := rsaOddPEM
+	for {
+		var blk *pem.Block
+		blk, rest = pem.Decode(rest)
+		if blk == nil {
+			break
+		}
+		k, err := x509.ParsePKCS1PrivateKey(blk.Bytes)
+		if err != nil {
+			panic(err)
+		}
+		k.Precompute()
+		out = append(out, k)
+	}
+	return out
+}
+
 var (
 	poolOnce sync.Once
 	pool     []*rsa.PrivateKey
